@@ -10,7 +10,7 @@
 // Output: per r op the calls made in order ("cb" = plain callback, number = handler id, "-" = none), then
 //   "| <list of bus 1> <list of bus 2>" (id@pgn in list order) and "| <t0> .. <t5>" (x = no object, else pgn:bus with bus 0 = none).
 // A destroyed object is never touched again (the pool slot is only reused by a new object), so the sanitizer build reports any
-// use of a freed handler by the library as a crash; a case that does not finish within 20 s is killed (SIGALRM) and counts as a crash too.  At the end of the case all objects are deleted and both lists must be empty.
+// use of a freed handler by the library as a crash; a case that does not finish within 3 s is killed (SIGALRM) and counts as a crash too.  At the end of the case all objects are deleted and both lists must be empty.
 #include "hcommon.h"
 #include <unistd.h>
 #include "NMEA2000.h"
@@ -99,7 +99,7 @@ int main() {
     for (size_t i = 1; ok && i < t.size(); i++) { Op o; if (parse(t[i], o)) ops.push_back(o); else ok = false; }
     if (!ok) { printf("badcase\n"); fflush(stdout); continue; }
     g_out = &out;
-    alarm(20);                      // a corrupted (cyclic) list must end the case as a crash (signal 14), not hang the check
+    alarm(3);                       // a corrupted (cyclic) list must end the case as a crash (signal 14), not hang the check
     for (size_t i = 0; i < ops.size(); i++) {
       const Op &o = ops[i];
       switch (o.k) {
